@@ -108,17 +108,25 @@ def run(res):
     structs = rng.sample(small, 40 if quick else len(small)) + rng.sample(list(all_structures(3)), 25 if quick else 600)
     ctl1 = FG.ctl_state(1)
     ltl1 = FG.ltl_path(1)
-    for K in structs:
+    from common import KS
+    from checks.c06 import rename_atoms
+    relabelled = []
+    for K in structs[::3]:
+        # labels that look like the fair label itself: 'fair' / 'fair0' on some states
+        m = rng.choice([{'p': 'fair'}, {'p': 'fair', 'q': 'fair0'}, {'q': 'fair0'}, {'p': 'fair0', 'q': 'fair'}])
+        relabelled.append((KS(K.succ, [[m.get(l, l) for l in ls] for ls in K.labs]), m))
+    for K, amap in [(K, {}) for K in structs] + relabelled:
         Fl = V.fair_lists(K.n, ordered=False)
         for F in [None] + rng.sample(Fl, min(len(Fl), 5 if quick else 12)):
             order = list(range(K.n))
             rng.shuffle(order)
+            ren = (lambda t: rename_atoms(t, amap)) if (amap and rng.random() < 0.6) else (lambda t: t)
             for t in rng.sample(ctl1, 6):
-                mc_jobs.append(('CTL', K.succ, K.labs, F, t, order))
+                mc_jobs.append(('CTL', K.succ, K.labs, F, ren(t), order))
             for t in rng.sample(ltl1, 2):
-                mc_jobs.append(('LTL', K.succ, K.labs, F, ('A', t), order))
+                mc_jobs.append(('LTL', K.succ, K.labs, F, ('A', ren(t)), order))
             for _ in range(4):
-                mc_jobs.append(('CTLS', K.succ, K.labs, F, FG.rand_ctls_state(rng, 3, max_temporal=2), order))
+                mc_jobs.append(('CTLS', K.succ, K.labs, F, ren(FG.rand_ctls_state(rng, 3, max_temporal=2)), order))
     mc = V.par(V.mc_chunk, mc_jobs)
     mc_model = lean_batch(['%s|%s|%s|%s' % (V.CMD[j[0]], enc, V.enc_fair(j[3]), sexpr(j[4])) for (enc, a, u, so, a0), j in zip(mc, mc_jobs)])
     differs_from_unconstrained = 0
